@@ -325,6 +325,22 @@ def l_ones_like(interp, x):
     return r if r is not None else _orig_ones_like(interp, x)
 
 
+_orig_zeros, _orig_ones = REG.get("torch.zeros"), REG.get("torch.ones")
+
+
+def _filled(orig, val):
+    def fn(interp, *size, dtype=None, device=None):
+        # torch.zeros(t.shape) / torch.ones(t.shape) with a shape of arbitrary rank (opaque tail): a layout tensor
+        if len(size) == 1 and isinstance(size[0], V.Shape) and size[0].tail is not None:
+            return LTen(size[0], lambda idx: val, fresh=True)
+        return orig(interp, *size, dtype=dtype, device=device)
+    return fn
+
+
+prim("torch.zeros")(_filled(_orig_zeros, ZERO))
+prim("torch.ones")(_filled(_orig_ones, ONE))
+
+
 @prim("torch.allclose", "torch.equal", "torch.isclose")
 def l_allclose(interp, a, b, *x, **k):
     return LPred(interp.cx.fresh_bool("tensors_close"))
